@@ -147,8 +147,9 @@ impl Scenario for MutexScn {
                     let mut k = 0;
                     for op in ops.bytes() {
                         let r = panic::catch_unwind(AssertUnwindSafe(|| match op {
-                            b'E' => {
-                                let name = format!("{}{}", (b'a' + ti as u8) as char, k);
+                            b'E' | b'L' => {
+                                // 'L' emits a metric one byte longer than 'E'
+                                let name = format!("{}{}{}", (b'a' + ti as u8) as char, k, if op == b'L' { "x" } else { "" });
                                 let call = sh.seq.fetch_add(1, Ordering::SeqCst);
                                 let r = target.emit(&name);
                                 let ret = sh.seq.fetch_add(1, Ordering::SeqCst);
@@ -184,7 +185,7 @@ impl Scenario for MutexScn {
                         if let Err(p) = r {
                             sh.log.lock().unwrap().push(Ev::Panic(crate::common::payload_str(&*p)));
                         }
-                        if op == b'E' {
+                        if op == b'E' || op == b'L' {
                             k += 1;
                         }
                     }
